@@ -607,6 +607,12 @@ func main() {
 	R.Expect("accept/identity", "accept/compressed", "accept/uncompressed", "reject/hybrid prefix", "reject/compressed x >= p", "reject/compressed x^3+7 non-residue",
 		"reject/uncompressed x >= p (alias of a curve point)", "reject/uncompressed y >= p (alias of a curve point)", "reject/uncompressed not on curve", "reject/length",
 		"recover/accept second candidate (x = r+n < p)", "recover/reject r+n >= p", "recover/reject not an x-coordinate", "recover/reject id > 3", "coords/accept", "coords/reject")
+	// cold start: decoding / recovery as the first library operation of a fresh process
+	for e := 0; e < 4; e++ {
+		R.Cold("decode", "dec", mc.D{"bytes": mc.Hex(ref.G().Mul(big.NewInt(6)).Compressed()), "entry": e, "recv": e})
+		R.Cold("decode", "dec", mc.D{"bytes": mc.Hex(ref.G().Mul(big.NewInt(9)).Uncompressed()), "entry": e, "recv": 3 - e})
+	}
+	R.Cold("recover", "recover", mc.D{"r": mc.HexBig(ref.ModN(ref.G().X)), "id": 1})
 	R.Finish()
 }
 
